@@ -94,6 +94,30 @@ def fill_helpers(ctx, crate):
                 ctx.report(clause, fn.split("::")[-1] + ":overlap-flag-reset-before-each-consume", v == C('bool', 0),
                            "the overlap flag is the constant false at the call inside the loop" if v == C('bool', 0) else
                            "the overlap flag handed to consume_while_overlapped_and_partial inside the loop is %s: once set it stays set, so the loop continues with a cell outside the container or unwraps None" % (show(v) if v else None), at=ev.at, kind="N")
+        if not fn.endswith("::not"):
+            # where the fill goes: from (low.depth, low.hash) down to each contained cell (depth, hash of
+            # one and the same cell), up by dd_4_go_up of that cell or back to the container's depth,
+            # and at the end down to the cell that follows the container: (low.depth, low.hash + 1)
+            di = crate.field_index("nested::bmoc::Cell", "depth"); hi = crate.field_index("nested::bmoc::Cell", "hash")
+            LOW = ('deref', ('p', 'low_resolution'))
+            def cell_pair(td, th):
+                return td[0] == 'fld' and th[0] == 'fld' and td[2] == di and th[2] == hi and td[1] == th[1] and td[1] != LOW
+            downs = [ev for ev in evs if ev.callee == GO_DOWN]; ups = [ev for ev in evs if ev.callee == GO_UP]
+            dds = {ev.ret: ev for ev in evs if ev.callee == DD}
+            closing = [ev for ev in downs if ev.args[2] == ('fld', LOW, di) and ev.args[3] == ('op', 'add', 'u64', ('fld', LOW, hi), C('u64', 1))]
+            bad = [ev for ev in downs if ev not in closing and not cell_pair(ev.args[2], ev.args[3])]
+            first = [ev for ev in downs if ev.argvals and ev.argvals[0] == ('fld', LOW, di) and ev.argvals[1] == ('fld', LOW, hi)]
+            badup = []
+            for ev in ups:
+                a = ev.args[2]
+                if a in dds and cell_pair(dds[a].args[2], dds[a].args[3]) and ev.argvals and dds[a].args[0] == ev.argvals[0] and dds[a].args[1] == ev.argvals[1]: continue
+                if a[0] == 'op' and a[1] == 'sub' and a[4] == ('fld', LOW, di) and ev.argvals and a[3] == ev.argvals[0]: continue
+                badup.append(ev)
+            okt = len(closing) == 1 and not bad and not badup and len(first) == 1 and len(downs) >= 3 and len(ups) >= 2
+            ctx.report(clause, fn.split("::")[-1] + ":fill-targets", okt,
+                       "%d go_down (first from the container's own cell, one to each contained cell, the last to (low.depth, low.hash + 1)), %d go_up (dd_4_go_up of the next cell, then back to the container's depth)" % (len(downs), len(ups)) if okt else
+                       "fill targets not as required: closing go_down to (low.depth, low.hash + 1): %d; other targets %s; climbs %s; start %d" % (len(closing), [(show(ev.args[2])[:30], show(ev.args[3])[:30]) for ev in bad], [show(ev.args[2])[:40] for ev in badup], len(first)),
+                       at=b.span, kind="N")
         ps = [ev for ev in evs if ev.callee == PUSH]
         raws = [ev for ev in evs if ev.callee == RAW]
         if fn.endswith("::not"):
